@@ -115,6 +115,38 @@ Definition av_set_text (v0 : pyv) (xa : attrs) : tres :=
               | CUnmodelled => TUnmodelled
               end
   | _ =>
+      if String.eqb ty "anyType" then                       (* valid type = type(value); to_text is the identity but for None *)
+        match v with
+        | VNone => done ""               (* since the repair of C12-F10: to_text maps None to "" *)
+        | _ => TNonStr
+        end
+      else if negb (pty_eqb (py_type v) (valid_type ty (py_type v))) then TRaise
+      else match v with
+           | VNone => done ""
+           | VInt neg d => done (int_text neg d)
+           | VBool b => done (if b then "true" else "false")
+           | VFloat _ s => done s
+           | _ => TRaise
+           end
+  end.
+
+
+(* set_text as it was BEFORE the repair of C12-F10 (kept for the refutation c12_av_anytype_none_v0_refuted and so that
+   Corr.cls recognises a regression): under anyType to_text was the identity, None stayed None *)
+Definition av_set_text_f10v0 (v0 : pyv) (xa : attrs) : tres :=
+  let v := norm_v v0 in
+  let t0 := av_get_type xa in
+  let xs := if is_empty t0 then type_to_xsd (py_type v) else t0 in
+  let '(ns, ty) := if is_empty xs then ("", "") else split_type xs in
+  if negb (type_ok xs) then TRaise else
+  let done (text : string) := TOk (av_set_type (mk_type_name ns ty) xa) (Some text) in
+  match v with
+  | VStr x => match av_convert ty x with
+              | CText x2 => done x2
+              | CRaise => TRaise
+              | CUnmodelled => TUnmodelled
+              end
+  | _ =>
       if String.eqb ty "anyType" then                       (* valid type = type(value); to_text is the identity *)
         match v with
         | VNone => TOk (av_set_type (mk_type_name ns ty) xa) None
@@ -129,6 +161,7 @@ Definition av_set_text (v0 : pyv) (xa : attrs) : tres :=
            | _ => TRaise
            end
   end.
+
 
 (* what SamlBase.__init__(text=None) leaves in _extatt, which the constructor then installs *)
 Definition av_ctor_xa0 : attrs := [(xsi_type, "")].
@@ -250,9 +283,10 @@ Definition av_xmlns_misplaced (ext : list ee) (xa : attrs) (tx : option string) 
   negb (attrs_eqb (wire_attrs xa ++ (if negb (is_empty (text_str tx)) || av_typed_empty ext xa tx
                                      then av_xmlns_of (av_get_type xa) else [])) xa).
 
-(* class 10 (C12-F10): the text member is None.  Only set_text(None) / .text = None under a type whose local name is
-   anyType gets there (to_text is the identity for that type; every other path of the constructor and of set_text
-   stores ""): parsing never leaves None in an AttributeValue (a fresh instance has text "", av_finish delivers Some),
+(* class 10 (C12-F10, FIXED: to_text of anyType maps None to ""; kept so that Corr.cls recognises a regression): the
+   text member is None.  Before the repair set_text(None) / .text = None under a type whose local name is
+   anyType got there (av_set_text_f10v0; every other path of the constructor and of set_text
+   stores ""; now NO recipe builds it: BuildProofs.av_build_text_some): parsing never leaves None in an AttributeValue (a fresh instance has text "", av_finish delivers Some),
    so such an instance comes back with text "" - whatever else it carries *)
 Definition av_text_none (tx : option string) : bool := match tx with None => true | Some _ => false end.
 
